@@ -151,6 +151,26 @@ func (m *Model) carriers(tag string) []string {
 
 // directDeps lists the services s depends on directly (statement of C05/C07).
 func (m *Model) directDeps(name string) []string {
+	if ov, ok := m.ovSvc[name]; ok {
+		// replaced at run time: what the replacement is built from, plus the decorators of its tags
+		deps := append([]string{}, ov.Deps...)
+		for _, t := range ov.Tags {
+			for _, d := range m.Cfg.Decorators {
+				if d.Tag == t {
+					for _, a := range d.Args {
+						if str, ok := a.(string); ok {
+							if k, payload, wf := ArgKind(str); wf && k == "service" {
+								deps = append(deps, payload)
+							} else if wf && k == "tagged" {
+								deps = append(deps, m.carriers(payload)...)
+							}
+						}
+					}
+				}
+			}
+		}
+		return deps
+	}
 	s := m.svc(name)
 	if s == nil || (s.Todo != nil && *s.Todo) {
 		return nil
@@ -202,23 +222,33 @@ func (m *Model) Reaches(name string) map[string]bool {
 
 // Scope returns the effective scope of a configured service.
 func (m *Model) Scope(name string) string {
-	s := m.svc(name)
-	if s == nil {
-		return "shared"
+	if d := m.declaredScope(name); d != "" {
+		return d
 	}
-	if s.Todo != nil && *s.Todo {
-		return "shared"
-	}
-	if s.Scope != nil {
-		return *s.Scope
+	if _, ov := m.ovSvc[name]; !ov {
+		s := m.svc(name)
+		if s == nil || (s.Todo != nil && *s.Todo) {
+			return "shared"
+		}
 	}
 	for d := range m.Reaches(name) {
-		ds := m.svc(d)
-		if ds != nil && !(ds.Todo != nil && *ds.Todo) && ds.Scope != nil && *ds.Scope == "contextual" {
+		if m.declaredScope(d) == "contextual" {
 			return "contextual"
 		}
 	}
 	return "shared"
+}
+
+// declaredScope: the scope a service declares itself ("" if none) - the replacement's, once it has been replaced.
+func (m *Model) declaredScope(name string) string {
+	if ov, ok := m.ovSvc[name]; ok {
+		return ov.Scope
+	}
+	s := m.svc(name)
+	if s == nil || (s.Todo != nil && *s.Todo) || s.Scope == nil {
+		return ""
+	}
+	return *s.Scope
 }
 
 // ---- parameters -----------------------------------------------------------------------------------
@@ -442,9 +472,9 @@ func (m *Model) callFn(chunk, name, argText string) (any, error) {
 				return nil, &MUnspec{"todo message type"}
 			}
 			if !strings.Contains(s, "parameter todo") {
-				return nil, fail(s, NotContains+"parameter todo") // the given message, not the default one
+				return nil, fail(s, NotContains+"parameter todo", EndsWith+": "+s) // the given message, not the default one, verbatim
 			}
-			return nil, fail(s)
+			return nil, fail(s, EndsWith+": "+s)
 		}
 		return nil, fail("parameter todo")
 	}
@@ -660,9 +690,17 @@ func (m *Model) get(name string, bag map[string]any) (any, error) {
 		return err
 	}
 	if ov, ok := m.ovSvc[name]; ok {
-		// overriding definitions are shared services built by a fixture constructor
-		if v, ok := m.shared[name]; ok {
-			return v, nil
+		// overriding definitions are built by a fixture constructor; their scope is the declared one, else inferred
+		ovScope := m.Scope(name)
+		switch ovScope {
+		case "shared":
+			if v, ok := m.shared[name]; ok {
+				return v, nil
+			}
+		case "contextual":
+			if v, ok := bag[name]; ok {
+				return v, nil
+			}
 		}
 		v, err := m.buildOverride(ov, bag)
 		if err != nil {
@@ -676,7 +714,12 @@ func (m *Model) get(name string, bag map[string]any) (any, error) {
 		if err != nil {
 			return nil, wrapErr(err)
 		}
-		m.shared[name] = v
+		switch ovScope {
+		case "shared":
+			m.shared[name] = v
+		case "contextual":
+			bag[name] = v
+		}
 		return v, nil
 	}
 	s := m.svc(name)
